@@ -55,3 +55,4 @@ OBLIGATIONS += [
     ob("c08.f.scrypt.codec.escrypt_r", "harness/scrypt_codec.c", "hf_escrypt_r", ["escrypt_r", "encode64", "escrypt_parse_setting"],
        "escrypt_r string assembly: buffer-size guard before hashing, KDF parameters taken from the setting (N = 2^N_log2), output = setting || '$' || 43-character hash || NUL, failure of the KDF propagated, output randomised first; every salt length <= 43", assumes=SCC, cbmc=["--unwind", "110", "--unwinding-assertions"], bound="values: salt <= 43 characters, buffer <= 102 bytes (the sizes of the public API)"),
 ]
+
